@@ -1,6 +1,6 @@
 (* pins for C06: statements of the property theorems as of the time of pinning *)
 From Coq Require Import NArith List PArith.
-From Blue Require Import Lsm.Model Lsm.History.
+From Blue Require Import Gen.Const_Conc Lsm.Model Lsm.History.
 From Blue Require Import Conc.KvsConc Conc.Spec Conc.ProofsSkel Conc.ProofsData Conc.ProofsSim Conc.ProofsTop Conc.ProofsHist.
 Import ListNotations.
 Open Scope N_scope.
